@@ -44,6 +44,9 @@ QUICK = {
     "n2_3msg_wrap_1drop": cfg(2, 3),                  # 1.8 M / 24 s
     "n1_bidir_1drop": cfg(1, 1, ss=1),                # 180 k / 5 s
     "n1_ping_1drop": cfg(1, 2, pc=1),                 # 119 k / 4 s
+    # duplicates: the only way an ACK can meet an empty queue (RAckEmpty)
+    "n1_2msg_1drop_1dup": cfg(1, 2, drop=1, dup=1),   # 7 k / 2 s
+    "n2_2msg_1dup": cfg(2, 2, drop=0, dup=1),
 }
 THOROUGH = dict(QUICK)
 THOROUGH.update({
